@@ -196,9 +196,15 @@ def stripAll0x : List Char → List Char
   | '0' :: 'x' :: r => stripAll0x r
   | cs => cs
 
+/-- `s.starts_with("0x")` -/
+def hasPrefix0x (s : String) : Bool :=
+  match s.toList with
+  | '0' :: 'x' :: _ => true
+  | _ => false
+
 /-- `IntWrapper` visitor (serde_xml_plist.rs:205-223) -/
 def readIntText (c : Codec) (s : String) : Option Int :=
-  if s.startsWith "0x" then c.parseHexU64 (String.ofList (stripAll0x s.toList))
+  if hasPrefix0x s then c.parseHexU64 (String.ofList (stripAll0x s.toList))
   else match c.parseI64 s with
     | some v => some v
     | none => c.parseU64 s
